@@ -63,6 +63,29 @@ func init() {
 		return showWrite(bs, n, err)
 	}
 	// NextPacket on the bytes, then Muxer.WritePacket of what was delivered
+	ops["reemitStream"] = func(c *Case) string {
+		in := unhex(c.str("hex"))
+		dmx := astits.NewDemuxer(context.Background(), bytes.NewReader(in), astits.DemuxerOptPacketSize(188))
+		var ps []*astits.Packet
+		for {
+			p, err := dmx.NextPacket()
+			if err != nil {
+				if errClass(err) == "eof" {
+					break
+				}
+				return "err"
+			}
+			ps = append(ps, p)
+		}
+		out := &bytes.Buffer{}
+		m := astits.NewMuxer(context.Background(), out)
+		for _, p := range ps {
+			if _, err := m.WritePacket(p); err != nil {
+				return "err"
+			}
+		}
+		return "ok:" + hex.EncodeToString(out.Bytes())
+	}
 	ops["reemit"] = func(c *Case) string {
 		in := unhex(c.str("hex"))
 		dmx := astits.NewDemuxer(context.Background(), bytes.NewReader(in), astits.DemuxerOptPacketSize(len(in)))
